@@ -52,7 +52,7 @@ def kill(i, props, only=None):
             t0 = time.time()
             env = {'VERIF_ONLY': only} if only else {}
             env['VERIF_DEBUG_EVIDENCE'] = '1'   # runs on a modified tree never replace evidence/<id>.json
-            rc, out = sh('./check %s --tier quick 2>&1' % p, cwd=V, env=env)
+            rc, out = sh('./check %s --tier %s 2>&1' % (p, os.environ.get('SEED_TIER', 'quick')), cwd=V, env=env)
             vio = [l for l in out.splitlines() if l.startswith('VIOLATION') or l.startswith('  harness=')]
             inc = [l for l in out.splitlines() if l.startswith('INCONCLUSIVE')]
             res[p] = {'exit': rc, 'secs': round(time.time() - t0), 'violation': vio[:2], 'inconclusive': inc[:2]}
